@@ -215,8 +215,8 @@ func (gb GenBank) String() string {
 	b.WriteString("DEFINITION  " + definition + ".\n")
 	b.WriteString("ACCESSION   " + AddPrefix(gb.Fields.Accession, indent))
 	if seg, ok := gb.Fields.Region.(gts.Segment); ok {
-		loc := gts.Range(gts.Unpack(seg))
-		b.WriteString(fmt.Sprintf(" REGION: %s", loc))
+		head, tail := gts.Unpack(seg)
+		b.WriteString(fmt.Sprintf(" REGION: %d..%d", head+1, tail))
 	}
 	b.WriteByte('\n')
 	b.WriteString("VERSION     " + AddPrefix(gb.Fields.Version, indent) + "\n")
